@@ -131,6 +131,7 @@ var synthHosts = []string{
 	"example.com", "www.example.com", "*.example.com", "xn--ea-8tb.example.com", "xn--0.example.com", "xn--mnchen-3ya.de", "EXAMPLE.org", "a_b.example.net",
 	"exämple.com", "foo..example.com", "-bad.example.com", "verylonglabel" + strings.Repeat("x", 60) + ".example.com", "localhost", "test.local", "10.0.0.1", "example.invalidtld",
 	"zqktlwi4fecvo6ri.onion", "www.zqktlwi4fecvo6ri.onion", "pg6mmjiyjmcrsslvykfwnntlaru7p5svn6y2ymmju6nubxndf4pscryd.onion", "a.pg6mmjiyjmcrsslvykfwnntlaru7p5svn6y2ymmju6nubxndf4pscryd.onion",
+	"www.example.abarth", "shop.example.doosan", "a.example.iinet", "x.example.htc", "example.active", "example.app", "www.example.dev", "example.xn--p1ai",
 	"mail.example.co.uk", "*.*.example.com", "example.com.", " example.com", "xn--a.example.com", "sub.*.example.com", "1.example.com", "b.example.com", "a.example.com", "c.example.com",
 }
 
@@ -321,7 +322,7 @@ func synthCert(g *RNG, idx []string) *ObjSpec {
 	}
 	for tries := 0; tries < 8; tries++ {
 		// ---- archetype: independent random features rarely add up to a coherent certificate of some type
-		arch := pick(g, []string{"random", "random", "random", "random", "tls", "tls", "ev-onion", "smime", "codesigning", "ca"})
+		arch := pick(g, []string{"random", "random", "random", "random", "tls", "tls", "ev-onion", "smime", "codesigning", "ca", "tls-removed-tld"})
 		var forcedEKU, forcedPol []string
 		// ---- names
 		nh := g.weighted([]int{1, 4, 3, 3, 2, 2, 1, 1, 1, 1})
@@ -330,6 +331,17 @@ func synthCert(g *RNG, idx []string) *ObjSpec {
 			hosts = append(hosts, pick(g, synthHosts))
 		}
 		switch arch {
+		case "tls-removed-tld":
+			// a server certificate issued while its top-level domain was delegated; the domain has been removed
+			// since. Names and access locations share the domain (rules asking at notBefore and rules asking
+			// "today" then consult the same helper about the same label, one after the other).
+			forcedEKU = []string{"1.3.6.1.5.5.7.3.1"}
+			forcedPol = []string{"2.23.140.1.2.1"}
+			tld := pick(g, []string{"abarth", "doosan", "iinet", "htc", "active"})
+			hosts = hosts[:0]
+			for i := g.Range(1, 3); i > 0; i-- {
+				hosts = append(hosts, pick(g, []string{"www", "shop", "a", "mail"})+".example."+tld)
+			}
 		case "tls":
 			forcedEKU = []string{"1.3.6.1.5.5.7.3.1"}
 			forcedPol = []string{pick(g, []string{"2.23.140.1.2.1", "2.23.140.1.2.2", "2.23.140.1.1"})}
@@ -376,6 +388,9 @@ func synthCert(g *RNG, idx []string) *ObjSpec {
 		}
 		// ---- validity
 		nb := synthBase.Add(time.Duration(g.Intn(17*365*24)) * time.Hour)
+		if arch == "tls-removed-tld" {
+			nb = time.Date(2017, 1, 1, 0, 0, 0, 0, time.UTC).Add(time.Duration(g.Intn(5*365*24)) * time.Hour)
+		}
 		na := nb.Add(time.Duration(pick(g, []int{1, 30, 90, 200, 397, 398, 825, 1200, 3650, 9000})) * 24 * time.Hour)
 		if g.Chance(0.05) {
 			na = nb.Add(-time.Hour)
@@ -496,11 +511,22 @@ func synthCert(g *RNG, idx []string) *ObjSpec {
 		}
 		if g.Chance(0.6) {
 			var ads [][]byte
+			// access locations: fixed ones, hosts under top-level domains that were removed or delegated late, or
+			// one of the certificate's own names (two rules then ask the same helper about the same host)
+			aiaHost := func(def []string) string {
+				switch k := g.Intn(10); {
+				case (k < 3 || arch == "tls-removed-tld" && k < 8) && len(hosts) > 0:
+					return "http://" + strings.TrimPrefix(pick(g, hosts), "*.")
+				case k < 5:
+					return "http://" + pick(g, []string{"ocsp.example.abarth", "ca.example.doosan", "pki.example.iinet", "ocsp.example.app", "ocsp.example.htc"})
+				}
+				return pick(g, def)
+			}
 			if g.Chance(0.8) {
-				ads = append(ads, dseq(doid("1.3.6.1.5.5.7.48.1"), ctxPrim(6, []byte(pick(g, []string{"http://ocsp.example.com", "https://ocsp.example.com", "ldap://ocsp.example.com", "http://ocsp.internal"})))))
+				ads = append(ads, dseq(doid("1.3.6.1.5.5.7.48.1"), ctxPrim(6, []byte(aiaHost([]string{"http://ocsp.example.com", "https://ocsp.example.com", "ldap://ocsp.example.com", "http://ocsp.internal"})))))
 			}
 			if g.Chance(0.7) {
-				ads = append(ads, dseq(doid("1.3.6.1.5.5.7.48.2"), ctxPrim(6, []byte(pick(g, []string{"http://ca.example.com/ca.crt", "http://ca.corp/ca.crt", "ftp://ca.example.com/ca.crt"})))))
+				ads = append(ads, dseq(doid("1.3.6.1.5.5.7.48.2"), ctxPrim(6, []byte(aiaHost([]string{"http://ca.example.com/ca.crt", "http://ca.corp/ca.crt", "ftp://ca.example.com/ca.crt"})+"/ca.crt"))))
 			}
 			if len(ads) > 0 {
 				add(dext("1.3.6.1.5.5.7.1.1", g.Chance(0.05), dseq(ads...)))
